@@ -271,7 +271,11 @@ def run(repo: Repo, rep: Report, tier: str) -> None:
     for s in diff_body:
         for n in ast.walk(s):
             if isinstance(n, ast.Call) and (dotted(n.func) or "") in ("shutil.copy", "shutil.copy2", "shutil.copyfile") and len(n.args) == 2:
-                src_txt, dst_txt = norm(_deref(gen, n.args[0])), norm(_deref(gen, n.args[1]))
+                from sa.match import Locals as _L96
+
+                GL96 = _L96(gen.node)
+                src_txt = norm(_deref(gen, n.args[0])) + " " + norm(GL96.inline(n.args[0], stop=tuple(GL96.params)))
+                dst_txt = norm(_deref(gen, n.args[1])) + " " + norm(GL96.inline(n.args[1], stop=tuple(GL96.params)))
                 sroots, droots = prov9.roots(n.args[0]), prov9.roots(n.args[1])
                 s_tmp = ("call", "tempfile.TemporaryDirectory") in sroots or ("call", "tempfile.mkdtemp") in sroots
                 d_tmp = ("call", "tempfile.TemporaryDirectory") in droots or ("call", "tempfile.mkdtemp") in droots
